@@ -595,7 +595,7 @@ theorem deVecCase_acc (env : Env) (vis : Visitor) (fuel : Nat) (dAny : Ty → Ty
                   exact DLe.trans_spent hsp1 this
             | err k => trivial
             | panic q => trivial
-        · simp only []
+        · try simp only []
           split
           · rename_i wp hbig
             split
@@ -643,7 +643,7 @@ theorem deVariantCase_acc (vis : Visitor) (dAny : Ty → Ty → St → R Val) (d
               have hbind : ∀ (et' : Ty) (el' : Label) (wt' : Ty), Acc (fun v => vcount v - 2) s4
                   ((addCost s4 1).bind fun _ s5 =>
                     if vis = Visitor.ignored then (dIgn wt' s5).map fun _ => Val.null
-                    else (dAny wt' et' s5).map fun v => Val.variant el' v 0) := by
+                    else (dAny wt' et' s5).map fun v => Val.variant el' v idx) := by
                 intro et' el' wt'
                 apply Acc.bind 0 (c2 := fun v => vcount v - 2) (Acc.addCost0 s4 1)
                 · intro _ s5 _
@@ -651,7 +651,7 @@ theorem deVariantCase_acc (vis : Visitor) (dAny : Ty → Ty → St → R Val) (d
                   · apply Acc.map
                     exact (hi _ s5).weaken (fun _ => by simp [vcount])
                   · apply Acc.map
-                    exact (ha _ _ s5).weaken (fun v => by show vcount (Val.variant el' v 0) - 2 ≤ vcount v; simp only [vcount]; omega)
+                    exact (ha _ _ s5).weaken (fun v => by show vcount (Val.variant el' v idx) - 2 ≤ vcount v; simp only [vcount]; omega)
                 · intro _; omega
               split
               · split
